@@ -996,6 +996,14 @@ def run(ctx):
         if len(samples) < 3 and i % 97 == 5:
             samples.append(json.dumps(d)[:300])
 
+    # which of the repaired behaviours the tree under check has (the model follows these regenerated probes)
+    try:
+        import re
+        tv = open(os.path.join(os.path.dirname(os.path.dirname(os.path.abspath(__file__))), "coq", "theories", "Gen", "Tables.v")).read()
+        ctx.stats["repair_probes"] = {k: b == "true" for k, b in re.findall(
+            r"Definition (fieldref_renders_own_type|validate_keeps_group_attrs|router_lists_shared_exit_once) : bool := (true|false)\.", tv)}
+    except OSError:
+        pass
     ctx.stats["documents"] = dist
     ctx.stats["constructs"] = dict(sorted(kinds_total.items()))
     ctx.stats["malformed_kinds"] = mal_kinds
@@ -1017,6 +1025,9 @@ def run(ctx):
         "JSON numbers that are not integers travel as their repr (never inspected by load/render)",
         "invented uuids (uuid4) never collide with given ones; compared as an anonymous marker",
         "`_ui` type/config of a node entry are re-synthesised by the toolkit and are outside the projection (positions are compared)",
+        "three behaviours that were repaired (typed field reference, top-level group attributes, shared exit) are read from the tree "
+        "under check by translator probes; the model mirrors whichever behaviour the tree has and the theorems are stated for both "
+        "(`if probe then holds else refuted`), the oracle never looks at the probes",
     ]
 
 
